@@ -6,6 +6,9 @@ import (
 	"reflect"
 	"strings"
 
+	"go.mongodb.org/mongo-driver/bson"
+	"go.mongodb.org/mongo-driver/bson/primitive"
+
 	"github.com/256dpi/lungo/bsonkit"
 )
 
@@ -99,4 +102,28 @@ func useTransaction(ctx context.Context, engine *Engine, lock bool, fn func(*Tra
 	}
 
 	return res, nil
+}
+
+// detachValue returns a deep copy of a value taken from a stored document
+// (including binary data), so that callers may modify what they get back
+// without altering the database.
+func detachValue(v interface{}) interface{} {
+	switch value := v.(type) {
+	case bson.D:
+		d := make(bson.D, 0, len(value))
+		for _, e := range value {
+			d = append(d, bson.E{Key: e.Key, Value: detachValue(e.Value)})
+		}
+		return d
+	case bson.A:
+		a := make(bson.A, 0, len(value))
+		for _, item := range value {
+			a = append(a, detachValue(item))
+		}
+		return a
+	case primitive.Binary:
+		return primitive.Binary{Subtype: value.Subtype, Data: append([]byte(nil), value.Data...)}
+	default:
+		return v
+	}
 }
